@@ -18,6 +18,7 @@ import (
 
 // death describes a child that died between a BEGIN and its END.
 type death struct {
+	RunNote string // the run's NOTE line (kind of target), if it printed one before it died
 	Begin   proto.Begin
 	Class   string
 	Note    string // the relevant part of stderr
@@ -126,6 +127,7 @@ func runChildOnce(bin string, spec proto.Spec, timeout time.Duration) (ends []pr
 	var choices []int
 	var stdoutRest strings.Builder
 	stall := ""
+	runNote := "" // the NOTE line of the run in progress (its kind of target)
 	for sc.Scan() {
 		line := sc.Text()
 		switch {
@@ -134,7 +136,7 @@ func runChildOnce(bin string, spec proto.Spec, timeout time.Duration) (ends []pr
 			if err := json.Unmarshal([]byte(line[6:]), &b); err != nil {
 				trouble = "malformed BEGIN: " + line
 			}
-			open, cfg, choices = &b, nil, nil
+			open, cfg, choices, runNote = &b, nil, nil, ""
 		case strings.HasPrefix(line, "END "):
 			var e proto.End
 			if err := json.Unmarshal([]byte(line[4:]), &e); err != nil {
@@ -147,6 +149,8 @@ func runChildOnce(bin string, spec proto.Spec, timeout time.Duration) (ends []pr
 			open = nil
 		case strings.HasPrefix(line, "STALL "):
 			stall = line[6:]
+		case strings.HasPrefix(line, "NOTE "):
+			runNote = line[5:]
 		case strings.HasPrefix(line, "CONFIG "):
 			cfg = json.RawMessage(line[7:])
 		case strings.HasPrefix(line, "S "):
@@ -190,7 +194,7 @@ func runChildOnce(bin string, spec proto.Spec, timeout time.Duration) (ends []pr
 				}
 			}
 		}
-		return ends, &death{Begin: *open, Class: class, Note: note, Exit: code, Config: cfg, Choices: choices}, "", open.Run + 1
+		return ends, &death{RunNote: runNote, Begin: *open, Class: class, Note: note, Exit: code, Config: cfg, Choices: choices}, "", open.Run + 1
 	}
 	if werr != nil {
 		return ends, nil, fmt.Sprintf("child failed outside a run: %v\n%s\n%s", werr, stderr.String(), stdoutRest.String()), 0
